@@ -40,8 +40,32 @@ class Graph:
         self.u = [None] * len(spec["u"])
 
     # ---- construction steps
-    def create_n(self, k, order=("i", "s", "f", "e")):
-        self.n[k] = self.H.N(**scalar_kwargs(self.H, self.spec["n"][k], order))
+    def create_n(self, k, order=("i", "s", "f", "e"), route="ctor"):
+        """route: "ctor" (constructor keywords), "coerce" (numerically equal values of the other
+        number type: the documented coercions int<->float), "copy" (copyconfig of a node that
+        differs in every given scalar, overridden with the - coerced - target values)"""
+        H = self.H
+        kw = scalar_kwargs(H, self.spec["n"][k], order)
+        if route == "ctor":
+            self.n[k] = H.N(**kw)
+            return
+        co = dict(kw)
+        co["i"] = float(co["i"])
+        if "f" in co and float(co["f"]).is_integer():
+            co["f"] = int(co["f"])
+        if route == "coerce":
+            self.n[k] = H.N(**co)
+            return
+        from experimaestro import copyconfig
+
+        base = {"i": kw["i"] + 11}
+        if "s" in kw:
+            base["s"] = kw["s"] + "-base"
+        if "f" in kw:
+            base["f"] = kw["f"] + 7.25
+        if "e" in kw:
+            base["e"] = H.Color.GREEN if kw["e"] is not H.Color.GREEN else H.Color.BLUE
+        self.n[k] = copyconfig(H.N(**base), **co)
 
     def wire_n(self, k, field, dorder=None):
         nd = self.spec["n"][k]
@@ -138,7 +162,7 @@ def canonical_ids(spec):
 
 def run_history(spec, hist):
     """hist: list of ops
-       ["n", k, order]            create plain node k with scalar kwargs in `order`
+       ["n", k, order, route]     create plain node k with scalar kwargs in `order` (route: ctor|coerce|copy)
        ["w", k, field, dorder]    wire edge field of node k
        ["t", k, first]            create task k (kwargs order)
        ["s", k]                   dry-run submit task k
@@ -155,7 +179,7 @@ def run_history(spec, hist):
         for op in hist:
             c = op[0]
             if c == "n":
-                g.create_n(op[1], op[2])
+                g.create_n(op[1], op[2], op[3] if len(op) > 3 else "ctor")
                 done += 1
             elif c == "w":
                 g.wire_n(op[1], op[2], op[3] if len(op) > 3 else None)
